@@ -1,58 +1,280 @@
-"""C14 — products, quotients and powers combine values raw-wise and units algebraically."""
+"""C14 — products, quotients and powers combine values raw-wise and units algebraically.
+
+Program space: ordered unit pairs (library + generated) for one rep pair; all 11x11 rep pairs on 12 unit
+pairs (product, direct quotient, quotient through unblock_int_div); scalar/quantity quotients (plain,
+unblocked, quantity / unblock_int_div(raw)); int_pow<-4..4>, sqrt, cbrt, 1/q on units that do and do not
+cancel; as_raw_number values; accept/reject probes for the integer-division and as_raw_number guards.
+Value space (inside the dump records): every pair of a boundary-derived alphabet per rep pair, all
+65536 pairs of {int8_t,uint8_t}^2 on 6 unit pairs.  Oracle: the raw C++ operator / std function on the
+same operands (definedness decided with __int128), Python Fractions for the powers, the unit model.
+"""
 import itertools
 import os
+from decimal import Decimal
 from fractions import Fraction as Fr
 
 from .. import core, model, psx
-from ..core import F3, I8, R11, tmax
+from ..core import BITS, F3, I8, R11
 from ..model import LIB_BY_STEM as U
 from ..sweep34 import cflags
-from . import c06, c07
+from . import c06, c07, c11
 
 LEVEL = "exploration"
 
 PREAMBLE = c07.PREAMBLE + r'''
+#include <vector>
+#include <algorithm>
+#include <cmath>
+#include <limits>
+#include <initializer_list>
+#include <csetjmp>
+#include <csignal>
 namespace c14 {
+typedef __int128 i128;
+// a trap inside the library (SIGFPE) on operands whose raw operation is defined is a mismatch for those operands, not a crash
+static sigjmp_buf trap_env;
+static volatile std::sig_atomic_t trap_armed = 0;
+extern "C" inline void c14_on_trap(int) { if (trap_armed) { trap_armed = 0; siglongjmp(trap_env, 1); } std::_Exit(86); }
+inline void arm_traps() { static bool done = false; if (!done) { std::signal(SIGFPE, c14_on_trap); done = true; } }
+#define C14_TRY if (sigsetjmp(c14::trap_env, 1) == 0) { c14::trap_armed = 1;
+#define C14_TRAPPED c14::trap_armed = 0; } else {
+#define C14_END }
 // value identity (long double has padding bytes, so memcmp over sizeof is not meaningful for it)
 template <typename T> bool same_val(T a, T b) { return std::memcmp(&a, &b, sizeof(T) == 16 ? 10 : sizeof(T)) == 0; }
-template <typename T, bool IsQ> struct Out;
-template <typename U, typename R> struct IsQuantity : std::false_type {};
+// value and sign identity through long double (exact for all 11 reps); any NaN equals any NaN
+inline bool same_ld(long double a, long double b) { return (a != a && b != b) || (a == b && std::signbit(a) == std::signbit(b)); }
+template <typename T> std::string vstr(T v) { char b[64]; std::snprintf(b, sizeof b, "%.21Lg", static_cast<long double>(v)); return b; }
+inline std::string hexld(long double v) { char b[96]; std::snprintf(b, sizeof b, "%La", v); return b; }
 template <typename T> struct QInfo {
     static constexpr bool is_quantity = false;
+    typedef T rep;
     static std::string unit() { return "null"; }
     template <typename Want> static bool rep_is() { return std::is_same<T, Want>::value; }
     static long double value(T v) { return static_cast<long double>(v); }
+    static T raw(T v) { return v; }
 };
 template <typename U, typename R> struct QInfo<au::Quantity<U, R>> {
     static constexpr bool is_quantity = true;
+    typedef R rep;
     static std::string unit() { return "{" + vf::unit_json<U>() + "}"; }
     template <typename Want> static bool rep_is() { return std::is_same<R, Want>::value; }
     static long double value(au::Quantity<U, R> q) { return static_cast<long double>(q.in(U{})); }
+    static R raw(au::Quantity<U, R> q) { return q.in(U{}); }
 };
+// bit identity of two values of the same type (any NaN == any NaN); different types never match
+template <typename G, typename W> struct BitsEq { static bool eq(G, W) { return false; } };
+template <typename W> struct BitsEq<W, W> { static bool eq(W a, W b) { return same_val(a, b) || (a != a && b != b); } };
+
+// ---- boundary-derived value alphabets (enumeration only) ---------------------------------------------
+template <typename R, bool I = std::is_integral<R>::value> struct Alpha {
+    static std::vector<R> make() {
+        const i128 lo = (i128)std::numeric_limits<R>::min(), hi = (i128)std::numeric_limits<R>::max(), one = 1;
+        const i128 c[] = {0, 1, -1, 2, -2, 3, -3, 4, 6, 7, 100, -100, 127, 128, -128, -129, 200, -200, 255, 256, 32767, 32768, -32768,
+                          40000, -40000, 65535, 65536, 3000000000LL, (one << 31) - 1, one << 31, -(one << 31), (one << 32) - 1, one << 32,
+                          (one << 32) + 2, -((one << 32) + 2), (one << 63) - 1, one << 63, lo, lo + 1, hi, hi - 1, lo / 2, hi / 2};
+        std::vector<i128> xs;
+        for (i128 x : c) if (x >= lo && x <= hi) xs.push_back(x);
+        std::sort(xs.begin(), xs.end());
+        xs.erase(std::unique(xs.begin(), xs.end()), xs.end());
+        std::vector<R> v;
+        for (i128 x : xs) v.push_back(static_cast<R>(x));
+        return v;
+    }
+    static const std::vector<R> &get() { static const std::vector<R> v = make(); return v; }
+};
+template <typename R> struct Alpha<R, false> {
+    static std::vector<R> make() {
+        typedef std::numeric_limits<R> L;
+        const R c[] = {R(0), -R(0), R(1), R(-1), R(6), R(4), R(0.5), R(1.1L), R(1) / R(3), R(7.25), R(-2.5), R(40000.5), R(3e9),
+                       R(16777217.0L), R(9007199254740993.0L), R(1e-310L), L::max(), L::lowest(), L::min(), L::denorm_min(),
+                       L::infinity(), -L::infinity(), L::quiet_NaN()};
+        return std::vector<R>(c, c + sizeof c / sizeof c[0]);
+    }
+    static const std::vector<R> &get() { static const std::vector<R> v = make(); return v; }
+};
+// is the raw operation defined?  (independent 128-bit oracle; floating: everything but a zero divisor)
+template <typename RA, typename RB, bool FP = std::is_floating_point<RA>::value || std::is_floating_point<RB>::value>
+struct Def { static bool mul(RA, RB) { return true; } static bool div(RA, RB b) { return b != 0; } };
+template <typename RA, typename RB> struct Def<RA, RB, false> {
+    typedef typename std::common_type<decltype(+std::declval<RA>()), decltype(+std::declval<RB>())>::type C;
+    static bool mul(RA a, RB b) {
+        if (!std::is_signed<C>::value) return true;
+        const i128 r = (i128)(C)a * (i128)(C)b;
+        return r >= (i128)std::numeric_limits<C>::min() && r <= (i128)std::numeric_limits<C>::max();
+    }
+    static bool div(RA a, RB b) {
+        const i128 A = (i128)(C)a, B = (i128)(C)b;
+        return B != 0 && !(std::is_signed<C>::value && A == (i128)std::numeric_limits<C>::min() && B == -1);
+    }
+};
+struct Tally {
+    long long n = 0, bad = 0, skip = 0; std::string first;
+    Tally() { arm_traps(); }
+    template <typename X, typename Y> void miss(X a, Y b) { if (!bad) first = vstr(a) + "," + vstr(b); ++bad; }
+    template <typename X, typename Y> void trap(X a, Y b) { if (!bad) first = "SIGFPE at " + vstr(a) + "," + vstr(b); ++bad; }
+    void out(const std::string &t) { vf_i((t + "_n").c_str(), n); vf_i((t + "_bad").c_str(), bad); vf_i((t + "_skip").c_str(), skip); vf_s((t + "_first").c_str(), first); }
+};
+template <typename P, typename W> void head(const std::string &t) {
+    vf_b((t + "_q").c_str(), QInfo<P>::is_quantity);
+    vf_kv((t + "_u").c_str(), QInfo<P>::unit());
+    vf_b((t + "_rep").c_str(), QInfo<P>::template rep_is<W>());
+}
+// ---- quantity x quantity ---------------------------------------------------------------------------------
 template <typename A, typename B, typename RA, typename RB>
 void pair_rec() {
-    const RA a = static_cast<RA>(6);
-    const RB b = static_cast<RB>(4);
+    using P = decltype(au::make_quantity<A>(RA{}) * au::make_quantity<B>(RB{}));
+    head<P, decltype(std::declval<RA>() * std::declval<RB>())>("p");
+    static Tally t; t = Tally();
+    for (RA a : Alpha<RA>::get()) for (RB b : Alpha<RB>::get()) {
+        if (!Def<RA, RB>::mul(a, b)) { ++t.skip; continue; }
+        ++t.n;
+        C14_TRY const auto p = au::make_quantity<A>(a) * au::make_quantity<B>(b);
+                if (!same_ld(QInfo<P>::value(p), static_cast<long double>(a * b))) t.miss(a, b); C14_TRAPPED t.trap(a, b); C14_END
+    }
+    t.out("p");
+    vf_b("p_val", t.bad == 0);
+}
+template <typename A, typename B, typename RA, typename RB, bool Unblock> struct Quot {
+    static auto go(RA a, RB b) { return au::make_quantity<A>(a) / au::make_quantity<B>(b); } };
+template <typename A, typename B, typename RA, typename RB> struct Quot<A, B, RA, RB, true> {
+    static auto go(RA a, RB b) { return au::make_quantity<A>(a) / au::unblock_int_div(au::make_quantity<B>(b)); } };
+template <typename A, typename B, typename RA, typename RB, bool Unblock>
+void quot_any(const char *tag) {
+    using P = decltype(Quot<A, B, RA, RB, Unblock>::go(RA{}, RB{}));
+    head<P, decltype(std::declval<RA>() / std::declval<RB>())>(tag);
+    static Tally t; t = Tally();
+    for (RA a : Alpha<RA>::get()) for (RB b : Alpha<RB>::get()) {
+        if (!Def<RA, RB>::div(a, b)) { ++t.skip; continue; }
+        ++t.n;
+        C14_TRY const auto p = Quot<A, B, RA, RB, Unblock>::go(a, b);
+                if (!same_ld(QInfo<P>::value(p), static_cast<long double>(a / b))) t.miss(a, b); C14_TRAPPED t.trap(a, b); C14_END
+    }
+    t.out(tag);
+    vf_b((std::string(tag) + "_val").c_str(), t.bad == 0);
+}
+template <typename A, typename B, typename RA, typename RB> void quot_rec() { quot_any<A, B, RA, RB, false>("d"); }
+// one operand pair only (used for the all-unit-pairs grid, where the unit algebra is the subject)
+template <typename A, typename B, typename RA, typename RB>
+void pair_lite() {
+    const RA a = static_cast<RA>(6); const RB b = static_cast<RB>(4);
     auto p = au::make_quantity<A>(a) * au::make_quantity<B>(b);
     using P = decltype(p);
-    vf_b("p_q", QInfo<P>::is_quantity);
-    vf_kv("p_u", QInfo<P>::unit());
-    vf_b("p_rep", QInfo<P>::template rep_is<decltype(a * b)>());
-    vf_b("p_val", QInfo<P>::value(p) == static_cast<long double>(a * b));
+    vf_b("p_q", QInfo<P>::is_quantity); vf_kv("p_u", QInfo<P>::unit());
+    vf_b("p_rep", QInfo<P>::template rep_is<decltype(a * b)>()); vf_b("p_val", QInfo<P>::value(p) == static_cast<long double>(a * b));
 }
 template <typename A, typename B, typename RA, typename RB>
-void quot_rec() {
-    const RA a = static_cast<RA>(6);
-    const RB b = static_cast<RB>(4);
+void quot_lite() {
+    const RA a = static_cast<RA>(6); const RB b = static_cast<RB>(4);
     auto p = au::make_quantity<A>(a) / au::make_quantity<B>(b);
     using P = decltype(p);
-    vf_b("d_q", QInfo<P>::is_quantity);
-    vf_kv("d_u", QInfo<P>::unit());
-    vf_b("d_rep", QInfo<P>::template rep_is<decltype(a / b)>());
-    vf_b("d_val", QInfo<P>::value(p) == static_cast<long double>(a / b));
+    vf_b("d_q", QInfo<P>::is_quantity); vf_kv("d_u", QInfo<P>::unit());
+    vf_b("d_rep", QInfo<P>::template rep_is<decltype(a / b)>()); vf_b("d_val", QInfo<P>::value(p) == static_cast<long double>(a / b));
+}
+template <typename A, typename B, typename RA, typename RB> void quot_unblock_rec() { quot_any<A, B, RA, RB, true>("du"); }
+// every operand pair of two 8-bit reps: product and unblocked quotient (no raw operation is undefined but x / 0)
+template <typename A, typename B, typename T1, typename T2>
+void sweep8() {
+    static long long n, bad, fa, fb; static bool ok;
+    n = bad = fa = fb = 0;
+    arm_traps();
+    for (int a = std::numeric_limits<T1>::min(); a <= std::numeric_limits<T1>::max(); ++a)
+        for (int b = std::numeric_limits<T2>::min(); b <= std::numeric_limits<T2>::max(); ++b) {
+            const T1 x = static_cast<T1>(a); const T2 y = static_cast<T2>(b); ++n;
+            ok = false;
+            C14_TRY auto p = au::make_quantity<A>(x) * au::make_quantity<B>(y);
+                    bool k = QInfo<decltype(p)>::template rep_is<decltype(x * y)>() && QInfo<decltype(p)>::value(p) == static_cast<long double>(x * y);
+                    if (y != 0) {
+                        auto d = au::make_quantity<A>(x) / au::unblock_int_div(au::make_quantity<B>(y));
+                        k = k && QInfo<decltype(d)>::template rep_is<decltype(x / y)>() && QInfo<decltype(d)>::value(d) == static_cast<long double>(x / y);
+                    }
+                    ok = k; C14_TRAPPED ok = false; C14_END
+            if (!ok) { if (!bad) { fa = a; fb = b; } ++bad; }
+        }
+    vf_i("n", n); vf_i("bad", bad); vf_i("fa", fa); vf_i("fb", fb);
+}
+// ---- scalar / quantity (Mode 0), scalar / unblock_int_div(quantity) (1), quantity / unblock_int_div(scalar) (2) ----
+template <typename Un, typename RS, typename RQ, int Mode> struct SQ {
+    static auto go(RS s, RQ x) { return s / au::make_quantity<Un>(x); }
+    static auto raw(RS s, RQ x) { return s / x; }
+    static bool ok(RS s, RQ x) { return Def<RS, RQ>::div(s, x); } };
+template <typename Un, typename RS, typename RQ> struct SQ<Un, RS, RQ, 1> {
+    static auto go(RS s, RQ x) { return s / au::unblock_int_div(au::make_quantity<Un>(x)); }
+    static auto raw(RS s, RQ x) { return s / x; }
+    static bool ok(RS s, RQ x) { return Def<RS, RQ>::div(s, x); } };
+template <typename Un, typename RS, typename RQ> struct SQ<Un, RS, RQ, 2> {
+    static auto go(RS s, RQ x) { return au::make_quantity<Un>(x) / au::unblock_int_div(s); }
+    static auto raw(RS s, RQ x) { return x / s; }
+    static bool ok(RS s, RQ x) { return Def<RQ, RS>::div(x, s); } };
+template <typename Un, typename RS, typename RQ, int Mode>
+void sq_rec(const char *tag) {
+    typedef SQ<Un, RS, RQ, Mode> F;
+    using P = decltype(F::go(RS{}, RQ{}));
+    head<P, decltype(F::raw(std::declval<RS>(), std::declval<RQ>()))>(tag);
+    static Tally t; t = Tally();
+    for (RS s : Alpha<RS>::get()) for (RQ x : Alpha<RQ>::get()) {
+        if (!F::ok(s, x)) { ++t.skip; continue; }
+        ++t.n;
+        C14_TRY const auto p = F::go(s, x);
+                if (!same_ld(QInfo<P>::value(p), static_cast<long double>(F::raw(s, x)))) t.miss(s, x); C14_TRAPPED t.trap(s, x); C14_END
+    }
+    t.out(tag);
+}
+// ---- powers and roots ----------------------------------------------------------------------------------------
+template <int K, typename Un, typename R>
+void ipow_rec(const char *tag, std::initializer_list<R> bases) {
+    using P = decltype(au::int_pow<K>(au::make_quantity<Un>(R{})));
+    head<P, R>(tag);
+    vf_b((std::string(tag) + "_repP").c_str(), QInfo<P>::template rep_is<decltype(std::declval<R>() * std::declval<R>())>());
+    std::string v = "[";
+    for (R b : bases) { const auto p = au::int_pow<K>(au::make_quantity<Un>(b)); v += (v.size() > 1 ? ",\"" : "\"") + hexld(QInfo<P>::value(p)) + "\""; }
+    vf_kv((std::string(tag) + "_v").c_str(), v + "]");
+}
+template <typename R, bool I = std::is_integral<R>::value> struct RootAlpha {
+    static std::vector<R> get() { typedef std::numeric_limits<R> L; return {R(0), R(1), R(2), R(7), R(9), R(100), static_cast<R>(-8), L::max(), L::min()}; } };
+template <typename R> struct RootAlpha<R, false> {
+    static std::vector<R> get() { typedef std::numeric_limits<R> L;
+        return {R(0), -R(0), R(1), R(2), R(7.25), R(9), R(-8), R(-1), R(0.001L), R(1e-310L), L::max(), L::min(), L::denorm_min(), L::infinity(), -L::infinity(), L::quiet_NaN()}; } };
+struct FnSqrt { template <typename T> static auto raw(T x) { return std::sqrt(x); } template <typename Q> static auto lib(Q q) { return au::sqrt(q); }
+                template <typename T> static bool ok(T) { return true; } };
+struct FnCbrt { template <typename T> static auto raw(T x) { return std::cbrt(x); } template <typename Q> static auto lib(Q q) { return au::cbrt(q); }
+                template <typename T> static bool ok(T) { return true; } };
+// 1/q with the scalar 1 of the rep's own type (floating reps) or double (integral reps: an integral 1 would be integer division)
+template <typename T> using InvS = typename std::conditional<std::is_floating_point<T>::value, T, double>::type;
+struct FnInv { template <typename T> static auto raw(T x) { return InvS<T>(1) / x; }
+               template <typename Un, typename R> static auto lib(au::Quantity<Un, R> q) { return InvS<R>(1) / q; }
+               template <typename T> static bool ok(T x) { return x != 0; } };
+template <typename Fn, typename Un, typename R>
+void root_rec(const char *tag) {
+    using P = decltype(Fn::lib(au::make_quantity<Un>(R{})));
+    using W = decltype(Fn::raw(std::declval<R>()));
+    head<P, W>(tag);
+    static Tally t; t = Tally();
+    for (R x : RootAlpha<R>::get()) {
+        if (!Fn::ok(x)) { ++t.skip; continue; }
+        ++t.n;
+        C14_TRY const auto p = Fn::lib(au::make_quantity<Un>(x));
+                if (!BitsEq<typename QInfo<P>::rep, W>::eq(QInfo<P>::raw(p), Fn::raw(x))) t.miss(x, 0); C14_TRAPPED t.trap(x, 0); C14_END
+    }
+    t.out(tag);
+}
+// ---- as_raw_number values -----------------------------------------------------------------------------------
+template <typename Un, typename R> void raw_rec() {
+    const auto a = au::as_raw_number(au::make_quantity<Un>(static_cast<R>(5)));
+    const auto b = au::as_raw_number(au::make_quantity<Un>(static_cast<R>(3)));
+    vf_b("t", std::is_same<decltype(a), const R>::value);
+    vf_s("v5", hexld(static_cast<long double>(a))); vf_s("v3", hexld(static_cast<long double>(b)));
+}
+template <typename R> void raw_id_rec() {
+    const auto a = au::as_raw_number(static_cast<R>(5));
+    const auto b = au::as_raw_number(au::hertz(static_cast<R>(2)) * au::seconds(static_cast<R>(3)));
+    vf_b("t", std::is_same<decltype(a), const R>::value && std::is_same<decltype(b), const decltype(std::declval<R>() * std::declval<R>())>::value);
+    vf_b("v", a == static_cast<R>(5) && b == static_cast<R>(2) * static_cast<R>(3));
 }
 }
 '''
+PRE = '#include "sweep.hh"\n' + PREAMBLE
+PROBE_PRE = '#include "sweep.hh"\n' + c07.PREAMBLE     # probe TUs have no vf_* printers: they must not see namespace c14
+MANT = {"float": 24, "double": 53, "long double": 64}
 
 
 def gen_units():
@@ -69,8 +291,28 @@ def gen_units():
             model.scaled(U["radians"], 1, 1, pi_pow=1)]
 
 
-def check(run):
-    tier = run.tier
+HZS = model.Unit("Hz*s", "decltype(au::Hertz{} * au::Seconds{})", {}, {}, 0, None, named=False)
+M3 = model.Unit("m^3", "decltype(au::pow<3>(au::Meters{}))", model.d(L=3), {}, 0, None, named=False)
+KM_M = model.Unit("km/m", "decltype(au::Kilo<au::Meters>{} / au::Meters{})", {}, model.mag_int(1000), 0, None, named=False)
+
+
+def ipow_bases(r):
+    """(C++ initializer list, python values) of the int_pow bases for rep r: every power -4..4 of every base is
+    exactly representable in r (unsigned 32/64-bit: the raw arithmetic is modular)."""
+    if r in F3:
+        vals = [Fr(3), Fr(-3), Fr(2), Fr(3, 2), Fr(-1, 2)]
+        txt = ["3", "-3", "2", "1.5", "-0.5"]
+    elif r.startswith("u"):
+        vals = [Fr(3), Fr(2)] + ([Fr(2 ** BITS[r] - 3)] if BITS[r] >= 32 else [])
+        txt = ["3", "2"] + (["-3"] if BITS[r] >= 32 else [])
+    else:
+        vals = [Fr(3), Fr(-3), Fr(2)]
+        txt = ["3", "-3", "2"]
+    return "{%s}" % ", ".join("static_cast<%s>(%s)" % (r, t) for t in txt), vals
+
+
+def build(tier):
+    """-> (recs, meta, probes, pairs)."""
     units = list(model.LIB) + gen_units()
     if tier == "quick":
         pairs = [(a, b) for i, a in enumerate(units) for j, b in enumerate(units) if (i * 7 + j) % 5 == 0 or a.name in ("hertz", "seconds", "meters", "feet") or b.name in ("hertz", "seconds", "Milli<seconds>")]
@@ -78,12 +320,18 @@ def check(run):
         pairs = list(itertools.product(units, repeat=2))
     pairs = [(a, b) for a, b in pairs if not model.ordering_conflict([a, b])]
     recs, meta = [], {}
-    rid = 0
+
+    def add(stmts, **m):
+        rid = len(recs)
+        recs.append((rid, stmts))
+        meta[rid] = m
+
     for a, b in pairs:
-        recs.append((rid, ["c14::pair_rec<%s, %s, double, float>();" % (a.cpp, b.cpp), "c14::quot_rec<%s, %s, double, float>();" % (a.cpp, b.cpp)]))
-        meta[rid] = {"kind": "pair", "a": a, "b": b}
-        rid += 1
-    # all rep pairs for 12 unit pairs
+        st = ["c14::pair_lite<%s, %s, double, float>();" % (a.cpp, b.cpp), "c14::quot_lite<%s, %s, double, float>();" % (a.cpp, b.cpp)]
+        if tier != "quick":
+            st.append("c14::quot_unblock_rec<%s, %s, double, float>();" % (a.cpp, b.cpp))
+        add(st, kind="pair", a=a, b=b)
+    # all rep pairs for 12 unit pairs: product, direct quotient (where the guard allows it), quotient through unblock_int_div
     upairs = [(U["hertz"], U["seconds"]), (U["hertz"], model.prefixed(model.SI_PREFIXES[14], U["seconds"])), (U["meters"], U["feet"]),
               (U["meters"], U["meters"]), (U["feet"], model.scaled(U["inches"], 12)), (U["newtons"], U["meters"]), (U["percent"], U["unos"]),
               (U["radians"], U["degrees"]), (U["bytes"], U["bits"]), (U["joules"], U["watts"]), (U["volts"], U["amperes"]), (U["miles"], U["hours"])]
@@ -92,165 +340,226 @@ def check(run):
         equiv = model.same_quantity(a, b)
         for ra in R11:
             for rb in R11:
-                recs.append((rid, ["c14::pair_rec<%s, %s, %s, %s>();" % (a.cpp, b.cpp, ra, rb)]))
-                meta[rid] = {"kind": "prod-rep", "a": a, "b": b, "ra": ra, "rb": rb}
-                rid += 1
                 blocked = (ra in I8 and rb in I8 and not equiv)
-                if not blocked:
-                    recs.append((rid, ["c14::quot_rec<%s, %s, %s, %s>();" % (a.cpp, b.cpp, ra, rb)]))
-                    meta[rid] = {"kind": "quot-rep", "a": a, "b": b, "ra": ra, "rb": rb}
-                    rid += 1
+                t = "<%s, %s, %s, %s>();" % (a.cpp, b.cpp, ra, rb)
+                add(["c14::pair_rec" + t], kind="prod-rep", a=a, b=b, ra=ra, rb=rb)
+                add((["c14::quot_rec" + t] if not blocked else []) + ["c14::quot_unblock_rec" + t], kind="quot-rep", a=a, b=b, ra=ra, rb=rb)
                 code = "auto x = au::make_quantity<%s>(static_cast<%s>(6)) / au::make_quantity<%s>(static_cast<%s>(4)); (void)x;" % (a.cpp, ra, b.cpp, rb)
                 probes.append(core.Probe(("qq", a.name, b.name, ra, rb), code, "reject" if blocked else "accept"))
                 if blocked:
                     probes.append(core.Probe(("qq-unblock", a.name, b.name, ra, rb),
                                              "auto x = au::make_quantity<%s>(static_cast<%s>(6)) / au::unblock_int_div(au::make_quantity<%s>(static_cast<%s>(4))); (void)x;" % (a.cpp, ra, b.cpp, rb), "accept"))
-    # scalar / quantity
-    # (int / Quantity<Unos,int> is left out: Unos is quantity-equivalent to the unitless unit, i.e. the "equivalent units" case)
-    for u in (U["seconds"], U["meters"], U["percent"], U["hertz"]):
+    # scalar / quantity.  int / Quantity<Unos,int> compiles (Unos is quantity-equivalent to the unitless unit, the "equivalent
+    # units" case): its acceptance is not probed, its value and unit are judged in the records below.
+    SQ6 = ["int8_t", "uint16_t", "int32_t", "uint64_t", "float", "double"]
+    for u in (U["seconds"], U["meters"], U["percent"], U["hertz"], U["unos"]):
         for rs in R11:
             for rq in R11:
-                blocked = rs in I8 and rq in I8
-                code = "auto x = static_cast<%s>(6) / au::make_quantity<%s>(static_cast<%s>(4)); (void)x;" % (rs, u.cpp, rq)
-                probes.append(core.Probe(("sq", u.name, rs, rq), code, "reject" if blocked else "accept"))
-                if blocked and rs in ("int32_t", "uint8_t", "int64_t"):
-                    probes.append(core.Probe(("sq-unblock", u.name, rs, rq),
-                                             "auto x = static_cast<%s>(6) / au::unblock_int_div(au::make_quantity<%s>(static_cast<%s>(4))); (void)x;" % (rs, u.cpp, rq), "accept"))
+                blocked = rs in I8 and rq in I8 and u.name != "unos"
+                if u.name != "unos":
+                    code = "auto x = static_cast<%s>(6) / au::make_quantity<%s>(static_cast<%s>(4)); (void)x;" % (rs, u.cpp, rq)
+                    probes.append(core.Probe(("sq", u.name, rs, rq), code, "reject" if blocked else "accept"))
+                    if blocked and rs in ("int32_t", "uint8_t", "int64_t"):
+                        probes.append(core.Probe(("sq-unblock", u.name, rs, rq),
+                                                 "auto x = static_cast<%s>(6) / au::unblock_int_div(au::make_quantity<%s>(static_cast<%s>(4))); (void)x;" % (rs, u.cpp, rq), "accept"))
+                if tier == "quick" and not (rs in SQ6 and rq in SQ6):
+                    continue
+                t = "<%s, %s, %s, %%d>(\"%%s\");" % (u.cpp, rs, rq)
+                add((["c14::sq_rec" + t % (0, "sq")] if not blocked else []) + ["c14::sq_rec" + t % (1, "squ"), "c14::sq_rec" + t % (2, "qsu")],
+                    kind="sq", u=u, rs=rs, rq=rq)
     # as_raw_number
     kilo_unos = model.prefixed(model.SI_PREFIXES[9], U["unos"])
     mega_unos = model.prefixed(model.SI_PREFIXES[8], U["unos"])
-    raws = [(U["percent"], None), (U["unos"], None), (kilo_unos, None), (mega_unos, None), (U["meters"], None), (U["radians"], None),
-            (model.Unit("m/ft", "decltype(au::Meters{} / au::Feet{})", {}, model.vdiv(U["meters"].mag, U["feet"].mag), 0, None, named=False), None),
-            (model.Unit("Hz*s", "decltype(au::Hertz{} * au::Seconds{})", {}, {}, 0, None, named=False), None),
-            (model.Unit("deg/rad", "decltype(au::Degrees{} / au::Radians{})", {}, model.DEG, 0, None, named=False), None)]
-    for u, _ in raws:
+    raws = [U["percent"], U["unos"], kilo_unos, mega_unos, U["meters"], U["radians"],
+            model.Unit("m/ft", "decltype(au::Meters{} / au::Feet{})", {}, model.vdiv(U["meters"].mag, U["feet"].mag), 0, None, named=False),
+            HZS, model.Unit("deg/rad", "decltype(au::Degrees{} / au::Radians{})", {}, model.DEG, 0, None, named=False)]
+    for u in raws:
         for r in R11:
             ok = (not u.dim) and c06.policy(r, r, u.mag)
             code = "auto x = au::as_raw_number(au::make_quantity<%s>(static_cast<%s>(5))); static_assert(std::is_same<decltype(x), %s>::value, \"\"); (void)x;" % (u.cpp, r, r)
             probes.append(core.Probe(("raw", u.name, r), code, "accept" if ok else "reject"))
-    # powers and roots
-    for u in (U["meters"], U["seconds"], model.scaled(U["feet"], 3), gen_units()[7], U["hertz"], U["percent"]):
+            if ok:
+                add(["c14::raw_rec<%s, %s>();" % (u.cpp, r)], kind="raw-value", u=u, r=r)
+    for r in R11:
+        add(["c14::raw_id_rec<%s>();" % r], kind="raw-identity", r=r)
+    # powers and roots: units that stay dimensioned, units that are the unitless unit (Unos, Hz*s), units whose power/root
+    # collapses an exponent (sqrt(m^2), cbrt(m^3), int_pow<2>(rt-s), int_pow<-1..>(1/s)), pi-scaled and scaled-dimensionless
+    g = gen_units()
+    pow_units = [U["meters"], U["seconds"], model.scaled(U["feet"], 3), g[7], U["hertz"], U["percent"], U["unos"], HZS, g[8], g[10]]
+    pow_wide = [g[9], M3, g[11], KM_M]
+    for u in pow_units + pow_wide:
+        wide = u in pow_wide
         for r in R11:
+            if tier == "quick" and wide and r not in ("int8_t", "uint32_t", "int64_t", "float", "long double"):
+                continue
+            ks = []
+            init, _ = ipow_bases(r)
+            st = []
             for k in range(-4, 5):
                 if r in I8 and k < 0:
                     probes.append(core.Probe(("ipow-neg", u.name, r, k), "auto x = au::int_pow<%d>(au::make_quantity<%s>(static_cast<%s>(3))); (void)x;" % (k, u.cpp, r), "reject"))
                     continue
-                stm = ['{ auto q = au::make_quantity<%s>(static_cast<%s>(3)); auto p = au::int_pow<%d>(q); using P = decltype(p);' % (u.cpp, r, k),
-                       'vf_b("q", c14::QInfo<P>::is_quantity); vf_kv("u", c14::QInfo<P>::unit());',
-                       'vf_s("v", c11fmt(c14::QInfo<P>::value(p))); vf_b("rep", c14::QInfo<P>::template rep_is<decltype(static_cast<%s>(3) * static_cast<%s>(3))>() || c14::QInfo<P>::template rep_is<%s>()); }' % (r, r, r)]
-                recs.append((rid, stm))
-                meta[rid] = {"kind": "ipow", "u": u, "r": r, "k": k}
-                rid += 1
-        for r in F3:
-            for fn, kk in (("sqrt", 2), ("cbrt", 3)):
-                stm = ['{ auto q = au::make_quantity<%s>(static_cast<%s>(7.25)); auto p = au::%s(q); using P = decltype(p);' % (u.cpp, r, fn),
-                       'vf_kv("u", c14::QInfo<P>::unit()); vf_b("bits", c14::same_val(p.in(P::unit), std::%s(static_cast<%s>(7.25))));' % (fn, r),
-                       'vf_b("rep", c14::QInfo<P>::template rep_is<decltype(std::%s(static_cast<%s>(7.25)))>()); }' % (fn, r)]
-                recs.append((rid, stm))
-                meta[rid] = {"kind": "root", "u": u, "r": r, "k": kk}
-                rid += 1
-            stm = ['{ auto q = au::make_quantity<%s>(static_cast<%s>(7.25)); auto p = static_cast<%s>(1) / q; using P = decltype(p);' % (u.cpp, r, r),
-                   'vf_kv("u", c14::QInfo<P>::unit()); vf_b("bits", c14::same_val(p.in(P::unit), static_cast<%s>(1) / static_cast<%s>(7.25))); vf_b("rep", c14::QInfo<P>::template rep_is<%s>()); }' % (r, r, r)]
-            recs.append((rid, stm))
-            meta[rid] = {"kind": "root", "u": u, "r": r, "k": -1}
-            rid += 1
-    # value sweeps: all int8 x int8 pairs through * and / on unit pairs with and without cancellation
+                ks.append(k)
+                st.append('c14::ipow_rec<%d, %s, %s>("k%d", %s);' % (k, u.cpp, r, k, init))
+            add(st, kind="ipow", u=u, r=r, ks=ks)
+            add(['c14::root_rec<c14::FnSqrt, %s, %s>("sqrt");' % (u.cpp, r), 'c14::root_rec<c14::FnCbrt, %s, %s>("cbrt");' % (u.cpp, r),
+                 'c14::root_rec<c14::FnInv, %s, %s>("inv");' % (u.cpp, r)], kind="root", u=u, r=r)
+    # value sweeps: all pairs of {int8_t, uint8_t}^2 through * and / on unit pairs with and without cancellation
     vs = [("au::Hertz", "au::Seconds"), ("au::Hertz", "au::Milli<au::Seconds>"), ("au::Meters", "au::Feet"), ("au::Meters", "au::Meters"),
           ("au::Feet", "decltype(au::Inches{} * au::mag<12>())"), ("au::Newtons", "au::Meters")]
     for ua, ub in vs:
-        for t in ("int8_t", "uint8_t"):
-            stm = ['{ long long n = 0, bad = 0, fa = 0, fb = 0; for (int a = %d; a <= %d; ++a) for (int b = %d; b <= %d; ++b) {' % (core.tmin(t), core.tmax(t), core.tmin(t), core.tmax(t)),
-                   'const %s x = static_cast<%s>(a), y = static_cast<%s>(b); ++n;' % (t, t, t),
-                   'auto p = au::make_quantity<%s>(x) * au::make_quantity<%s>(y); if (c14::QInfo<decltype(p)>::value(p) != static_cast<long double>(x * y)) { if (!bad) { fa = a; fb = b; } ++bad; }' % (ua, ub),
-                   'if (y != 0) { auto d = au::make_quantity<%s>(x) / au::unblock_int_div(au::make_quantity<%s>(y)); if (c14::QInfo<decltype(d)>::value(d) != static_cast<long double>(x / y)) { if (!bad) { fa = a; fb = b; } ++bad; } }' % (ua, ub),
-                   '} vf_i("n", n); vf_i("bad", bad); vf_i("fa", fa); vf_i("fb", fb); }']
-            recs.append((rid, stm))
-            meta[rid] = {"kind": "sweep", "ua": ua, "ub": ub, "t": t}
-            rid += 1
-    pre = '#include "sweep.hh"\n' + PREAMBLE + '\nstatic std::string c11fmt(long double v) { char b[96]; std::snprintf(b, sizeof b, "%La", v); return b; }\n'
-    if tier == "quick":
-        probes = [p for i, p in enumerate(probes) if p.pid[0] in ("raw", "qq-unblock", "sq-unblock") or i % 3 == 0]
-    cfgs = core.CORNERS if tier == "quick" else core.CFG6
+        for t1 in ("int8_t", "uint8_t"):
+            for t2 in ("int8_t", "uint8_t"):
+                add(["c14::sweep8<%s, %s, %s, %s>();" % (ua, ub, t1, t2)], kind="sweep", ua=ua, ub=ub, t1=t1, t2=t2)
+    return recs, meta, probes, pairs
+
+
+def desc_of(m):
+    return "%s:%s" % (m["kind"], ",".join(str(getattr(v, "name", v)) for k, v in m.items() if k not in ("kind", "ks")))
+
+
+def judge(m, o, viol, cnt):
+    """All expectations about one dump record.  viol(kind, what, desc=None); cnt: evidence counters."""
+    def unit_ok(tag, dim, mag, desc=None, raw_kind=None):
+        """raw number iff the model's unit is the unitless unit, else a Quantity of exactly that unit."""
+        unitless = (not dim) and (not mag)
+        isq = o[tag + "_q"]
+        cnt["results_quantity" if isq else "results_raw_number"] += 1
+        if unitless:
+            if isq:
+                viol(raw_kind or (tag + "-not-raw"), "units cancel exactly to the unitless unit but the result is a Quantity (of %s)" % (o[tag + "_u"],), desc)
+            return
+        if not isq:
+            viol(tag + "-raw", "units do not cancel to the unitless unit (dim %s mag %s) but the result is a raw number" % (model.dim_key(dim), model.mag_key(mag)), desc)
+            return
+        uj = o[tag + "_u"]
+        gd, gm = model.dim_key(model.dim_from_readout(uj["dim"])), model.mag_key(model.mag_from_readout(uj["mag"]))
+        if gd != model.dim_key(dim) or gm != model.mag_key(mag):
+            viol(tag + "-unit", "result unit has dim=%s mag=%s, algebra gives dim=%s mag=%s" % (gd, gm, model.dim_key(dim), model.mag_key(mag)), desc)
+
+    def values_ok(tag, kind, what):
+        if tag + "_n" not in o:      # single operand pair (6, 4)
+            cnt["value_pairs"] += 1
+            if not (o[tag + "_rep"] and o[tag + "_val"]):
+                viol(kind, "%s value/rep differs from the raw operator: %s" % (what, o))
+            return
+        cnt["value_pairs"] += o[tag + "_n"]
+        cnt["value_pairs_skipped_undefined_raw"] += o[tag + "_skip"]
+        if o[tag + "_n"] == 0:
+            raise core.InfraError("vacuous value loop in %s (%s)" % (desc_of(m), tag))
+        if not o[tag + "_rep"] or o[tag + "_bad"]:
+            viol(kind, "%s: rep %s the raw operator's; %d of %d operand pairs differ from the raw operator (first: %s)"
+                 % (what, "is" if o[tag + "_rep"] else "is NOT", o[tag + "_bad"], o[tag + "_n"], o[tag + "_first"]))
+
+    k = m["kind"]
+    if k in ("pair", "prod-rep", "quot-rep"):
+        a, b = m["a"], m["b"]
+        if "p_q" in o:
+            unit_ok("p", model.vmul(a.dim, b.dim), model.vmul(a.mag, b.mag))
+            values_ok("p", "product-value", "product")
+        if "d_q" in o:
+            unit_ok("d", model.vdiv(a.dim, b.dim), model.vdiv(a.mag, b.mag))
+            values_ok("d", "quotient-value", "quotient")
+        if "du_q" in o:
+            unit_ok("du", model.vdiv(a.dim, b.dim), model.vdiv(a.mag, b.mag))
+            values_ok("du", "unblock-quotient-value", "quotient through unblock_int_div")
+    elif k == "sq":
+        u = m["u"]
+        for tag, dim, mag, what in (("sq", model.vinv(u.dim), model.vinv(u.mag), "scalar / quantity"),
+                                    ("squ", model.vinv(u.dim), model.vinv(u.mag), "scalar / unblock_int_div(quantity)"),
+                                    ("qsu", u.dim, u.mag, "quantity / unblock_int_div(scalar)")):
+            if tag + "_q" in o:
+                unit_ok(tag, dim, mag)
+                values_ok(tag, tag + "-value", what)
+    elif k == "ipow":
+        u, r = m["u"], m["r"]
+        _, bases = ipow_bases(r)
+        for kk in m["ks"]:
+            tag = "k%d" % kk
+            desc = "ipow:%s,%s,%d" % (u.name, r, kk)
+            unit_ok(tag, model.vpow(u.dim, kk), model.vpow(u.mag, kk), desc,
+                    raw_kind="ipow-not-raw" if (kk != 0 or ((not u.dim) and (not u.mag))) else "ipow0-not-raw")
+            if not (o[tag + "_rep"] or o[tag + "_repP"]):
+                viol("ipow-rep", "int_pow<%d> changes the rep for %s" % (kk, r), desc)
+            elif not o[tag + "_repP"]:
+                cnt["ipow_rep_is_R_not_promoted"] += 1
+            for base, s in zip(bases, o[tag + "_v"]):
+                cnt["power_values"] += 1
+                got = c11.parse_hexfloat(s)
+                want = base ** kk
+                if r in I8:
+                    if r.startswith("u"):
+                        want %= 2 ** BITS[r]
+                    tol = 0
+                else:
+                    tol = 0 if kk >= 0 else abs(want) * (abs(kk) + 1) * Fr(1, 2 ** (MANT[r] - 1))
+                if got is None or abs(got - want) > tol:
+                    viol("ipow-value", "int_pow<%d>(%s) = %s, exact %s (allowed deviation %s)" % (kk, base, s, want, float(tol)), desc)
+    elif k == "root":
+        u, r = m["u"], m["r"]
+        for tag, e in (("sqrt", Fr(1, 2)), ("cbrt", Fr(1, 3)), ("inv", Fr(-1))):
+            desc = "root:%s,%s,%s" % (u.name, r, tag)
+            unit_ok(tag, model.vpow(u.dim, e), model.vpow(u.mag, e), desc, raw_kind="root-not-raw")
+            cnt["root_values"] += o[tag + "_n"]
+            if o[tag + "_n"] == 0:
+                raise core.InfraError("vacuous root loop in %s" % desc)
+            if not o[tag + "_rep"] or o[tag + "_bad"]:
+                viol("root-value", "%s: rep %s the std function's; %d of %d values differ bitwise from the std function / raw operator (first: %s)"
+                     % (tag, "is" if o[tag + "_rep"] else "is NOT", o[tag + "_bad"], o[tag + "_n"], o[tag + "_first"]), desc)
+    elif k == "raw-value":
+        u, r = m["u"], m["r"]
+        cnt["as_raw_number_values"] += 2
+        if not o["t"]:
+            viol("raw-type", "as_raw_number does not return the rep")
+        for x, key in ((5, "v5"), (3, "v3")):
+            got = c11.parse_hexfloat(o[key])
+            if model.mag_is_rational(u.mag):
+                want = Fr(x) * model.mag_fraction(u.mag)
+                bad = got is None or (got != want if r in I8 else abs(got - want) > abs(want) * Fr(4, 2 ** (MANT[r] - 1)))
+            else:
+                want = Decimal(x) * model.mag_decimal(u.mag)
+                bad = got is None or abs(Decimal(got.numerator) / Decimal(got.denominator) - want) > abs(want) * Decimal(4) / Decimal(2 ** (MANT[r] - 1))
+            if bad:
+                viol("raw-value", "as_raw_number(%s(%d)) = %s, the value in the unitless unit is %s" % (u.name, x, o[key], want))
+    elif k == "raw-identity":
+        cnt["as_raw_number_values"] += 2
+        if not (o["t"] and o["v"]):
+            viol("raw-identity", "as_raw_number of a raw number / of a product that collapsed is not the identity: %s" % o)
+    elif k == "sweep":
+        cnt["value_pairs"] += o["n"]
+        if o["bad"]:
+            viol("sweep", "%d of %d operand pairs differ from the raw operator in value or type (first a=%d b=%d)" % (o["bad"], o["n"], o["fa"], o["fb"]))
+
+
+def check(run):
+    tier = run.tier
+    recs, meta, probes, pairs = build(tier)
+    cfgs = list(core.CORNERS) if tier == "quick" else list(core.CORNERS) + [c for c in core.CFG6 if c not in core.CORNERS]
     evals = 0
-    nraw = nq = 0
-    from . import c11
+    cnt = {k: 0 for k in ("results_raw_number", "results_quantity", "value_pairs", "value_pairs_skipped_undefined_raw", "power_values",
+                          "root_values", "as_raw_number_values", "ipow_rep_is_R_not_promoted")}
+    done = []
+    dur = 0.0
     for cfg in cfgs:
-        res, failed = psx.run_dump(cfg, recs, os.path.join(run.wd, cfg.name), "c14", pre, flags=cflags(cfg), chunk=max(20, len(recs) // (core.NCPU * 3) + 1))
+        if done and run.time_left() < 1.15 * dur + 60:     # deadline guard: a configuration costs about what the slowest one did
+            break
+        t_cfg = run.elapsed()
+        res, failed = psx.run_dump(cfg, recs, os.path.join(run.wd, cfg.name), "c14", PRE, flags=cflags(cfg), chunk=max(20, min(120, len(recs) // (core.NCPU * 3) + 1)))
         for r, diag in failed.items():
-            m = meta[r]
-            desc = "%s:%s" % (m["kind"], ",".join(str(getattr(v, "name", v)) for k, v in m.items() if k != "kind"))
+            desc = desc_of(meta[r])
             run.violation("C14:does-not-compile:" + desc, "%s: %s does not compile: %s" % (cfg, desc, diag),
                           run.write_replay("C14:does-not-compile:" + desc, {"kind": "program", "config": str(cfg), "stmts": recs[r][1]}))
         for r, o in res.items():
-            m = meta[r]
             evals += 1
-            desc = "%s:%s" % (m["kind"], ",".join(str(getattr(v, "name", v)) for k, v in m.items() if k != "kind"))
 
-            def viol(kind, what):
-                key = "C14:%s:%s" % (kind, desc)
-                run.violation(key, "%s: %s" % (cfg, what), run.write_replay(key, {"kind": "program", "config": str(cfg), "stmts": recs[r][1], "observed": o}))
-
-            def unit_ok(tag, uj, dim, mag):
-                unitless = (not dim) and (not mag)
-                if unitless:
-                    if o[tag + "_q"]:
-                        viol(tag + "-not-raw", "units cancel exactly but the result is a Quantity")
-                    return
-                if not o[tag + "_q"]:
-                    viol(tag + "-raw", "units do not cancel to the unitless unit (dim %s mag %s) but the result is a raw number" % (model.dim_key(dim), model.mag_key(mag)))
-                    return
-                gd, gm = model.dim_key(model.dim_from_readout(uj["dim"])), model.mag_key(model.mag_from_readout(uj["mag"]))
-                if gd != model.dim_key(dim) or gm != model.mag_key(mag):
-                    viol(tag + "-unit", "result unit has dim=%s mag=%s, algebra gives dim=%s mag=%s" % (gd, gm, model.dim_key(dim), model.mag_key(mag)))
-            if m["kind"] in ("pair", "prod-rep", "quot-rep"):
-                a, b = m["a"], m["b"]
-                if "p_q" in o:
-                    unit_ok("p", o["p_u"], model.vmul(a.dim, b.dim), model.vmul(a.mag, b.mag))
-                    nraw += not o["p_q"]
-                    nq += o["p_q"]
-                    if not (o["p_rep"] and o["p_val"]):
-                        viol("product-value", "product value/rep differs from the raw operator: %s" % o)
-                if "d_q" in o:
-                    unit_ok("d", o["d_u"], model.vdiv(a.dim, b.dim), model.vdiv(a.mag, b.mag))
-                    nraw += not o["d_q"]
-                    nq += o["d_q"]
-                    if not (o["d_rep"] and o["d_val"]):
-                        viol("quotient-value", "quotient value/rep differs from the raw operator: %s" % o)
-            elif m["kind"] == "ipow":
-                u, k = m["u"], m["k"]
-                dim, mag = model.vpow(u.dim, k), model.vpow(u.mag, k)
-                if k == 0:
-                    pass      # degenerate power: unit is the unitless unit; raw number vs unitless Quantity is not judged
-                elif (not dim) and (not mag):
-                    if o["q"]:
-                        viol("ipow-not-raw", "int_pow<%d> cancels the unit but returns a Quantity" % k)
-                elif not o["q"]:
-                    viol("ipow-raw", "int_pow<%d> returns a raw number" % k)
+            def viol(kind, what, desc=None, r=r, o=o):
+                key = "C14:%s:%s" % (kind, desc or desc_of(meta[r]))
+                if run.match_known(key) is not None:
+                    run.violation(key, "%s: %s" % (cfg, what))
                 else:
-                    gd, gm = model.dim_key(model.dim_from_readout(o["u"]["dim"])), model.mag_key(model.mag_from_readout(o["u"]["mag"]))
-                    if gd != model.dim_key(dim) or gm != model.mag_key(mag):
-                        viol("ipow-unit", "int_pow<%d> unit dim=%s mag=%s expected dim=%s mag=%s" % (k, gd, gm, model.dim_key(dim), model.mag_key(mag)))
-                got = c11.parse_hexfloat(o["v"])
-                want = Fr(3) ** k
-                tol = 0 if k >= 0 else Fr(1, 2 ** 20)
-                if got is None or abs(got - want) > want * tol:
-                    viol("ipow-value", "int_pow<%d>(3) = %s, exact %s" % (k, o["v"], want))
-                if not o["rep"]:
-                    viol("ipow-rep", "int_pow<%d> changes the rep for %s" % (k, m["r"]))
-            elif m["kind"] == "root":
-                u, k = m["u"], m["k"]
-                e = Fr(1, k) if k > 0 else Fr(-1)
-                dim, mag = model.vpow(u.dim, e), model.vpow(u.mag, e)
-                gd, gm = model.dim_key(model.dim_from_readout(o["u"]["dim"])), model.mag_key(model.mag_from_readout(o["u"]["mag"]))
-                if gd != model.dim_key(dim) or gm != model.mag_key(mag):
-                    viol("root-unit", "unit dim=%s mag=%s expected dim=%s mag=%s" % (gd, gm, model.dim_key(dim), model.mag_key(mag)))
-                if not (o["bits"] and o["rep"]):
-                    viol("root-value", "value/rep differs from the std function: %s" % o)
-            elif m["kind"] == "sweep":
-                evals += o["n"]
-                if o["bad"]:
-                    viol("sweep", "%d of %d operand pairs differ from the raw operator (first a=%d b=%d)" % (o["bad"], o["n"], o["fa"], o["fb"]))
-        pres, _ = core.run_probes(cfg, probes, os.path.join(run.wd, "pr_" + cfg.name), "c14p", pre, flags=cflags(cfg))
+                    run.violation(key, "%s: %s" % (cfg, what), run.write_replay(key, {"kind": "program", "config": str(cfg), "stmts": recs[r][1], "observed": o}))
+            judge(meta[r], o, viol, cnt)
+        pres, _ = core.run_probes(cfg, probes, os.path.join(run.wd, "pr_" + cfg.name), "c14p", PROBE_PRE, flags=cflags(cfg))
         for p in probes:
             v, diag = pres[p.pid]
             evals += 1
@@ -258,17 +567,37 @@ def check(run):
                 key = "C14:%s-%s:%s" % (p.pid[0], v, ",".join(str(x) for x in p.pid[1:]))
                 run.violation(key, "%s: `%s` is %sed, expected %s (%s)" % (cfg, p.code, v, p.expect, diag[:200]),
                               run.write_replay(key, {"kind": "program", "config": str(cfg), "code": p.code, "expected": p.expect, "observed": v}))
+        done.append(str(cfg))
+        dur = max(dur, run.elapsed() - t_cfg)
     nacc = sum(1 for p in probes if p.expect == "accept")
+    nraw, nq = cnt["results_raw_number"], cnt["results_quantity"]
+    evals += cnt["value_pairs"] + cnt["power_values"] + cnt["root_values"] + cnt["as_raw_number_values"]
+    run.cov.update(cnt)
     run.cov.update({
-        "evaluations": evals, "programs": (len(recs) + len(probes)) * len(cfgs), "unit_pairs": len(pairs), "probes": len(probes),
-        "results_raw_number": nraw, "results_quantity": nq, "probes_expected_accept": nacc, "probes_expected_reject": len(probes) - nacc,
+        "evaluations": evals, "programs": (len(recs) + len(probes)) * len(done), "unit_pairs": len(pairs), "probes": len(probes),
+        "probes_expected_accept": nacc, "probes_expected_reject": len(probes) - nacc,
         "distinct_nontrivial": min(nraw, nq) + min(nacc, len(probes) - nacc),
         "rule": "ordered unit pairs over the library's 57 units + 12 generated units (product and quotient: raw number iff the model says dim=0 and mag=1, else Quantity of the exact "
-                "product/quotient unit, rep = decltype of the raw operator), 11x11 rep pairs on 12 unit pairs, int_pow<-4..4>/sqrt/cbrt/1/q, all 65536 int8/uint8 operand pairs on 6 unit "
-                "pairs; integer-division, unblock_int_div and as_raw_number accept/reject probes. distinct_nontrivial = min(#raw-number results, #Quantity results) + min(#accept, #reject probes).",
-        "configs": [str(c) for c in cfgs], "exhaustive": True, "exhaustive_note": "stated grids enumerated completely (quick: a fixed 1/5 subset of unit pairs plus all pairs involving hertz/seconds/meters/feet)",
+                "product/quotient unit, rep = decltype of the raw operator); 11x11 rep pairs on 12 unit pairs for product, direct quotient and the quotient through unblock_int_div "
+                "(unit, collapse, rep, and the value on every pair of a boundary-derived alphabet per rep: 0, +-1..7, 100, 127/128, 200, 255/256, 2^15, 40000, 2^16, 3e9, 2^31, 2^32(+2), "
+                "2^63, min, max, min/2, max/2 and their neighbours for integral reps; signed zeros, 1.1, 1/3, 2^24+1, 2^53+1, denormals, max, lowest, infinities, NaN for floating reps; "
+                "pairs whose raw operation is undefined -- zero divisor, MIN/-1, signed overflow in the common type, decided with __int128 -- are skipped and counted); "
+                "scalar/quantity, scalar/unblock_int_div(quantity) and quantity/unblock_int_div(scalar) on 5 units x rep pairs with the same alphabets; int_pow<-4..4> on bases "
+                "{3,-3,2,1.5,-0.5} (exact powers; negative exponents within (|k|+1) ulp of the exact quotient), sqrt/cbrt/1/q on all 11 reps with special values (bitwise equal to the std "
+                "function / raw operator), each on units that stay dimensioned, on units that are the unitless unit (Unos, Hz*s) and on units whose exponents collapse (m^2, m^3, rt-s, 1/s); "
+                "as_raw_number values against the model magnitude; all 65536 operand pairs of {int8_t,uint8_t}^2 on 6 unit pairs; integer-division, unblock_int_div and as_raw_number "
+                "accept/reject probes. distinct_nontrivial = min(#raw-number results, #Quantity results) + min(#accept, #reject probes).",
+        "configs": done, "exhaustive": len(done) == len(cfgs),
+        "exhaustive_note": "stated grids (finite alphabets) enumerated completely (quick: a fixed 1/5 subset of unit pairs plus all pairs involving hertz/seconds/meters/feet, 6x6 rep pairs for "
+                           "scalar/quantity, 5 reps on the 4 extra power units)" + ("" if len(done) == len(cfgs) else "; deadline guard stopped after configurations %s" % done),
         "samples": [{"pair": [a.name, b.name]} for a, b in pairs[:: max(1, len(pairs) // 6)]][:6],
     })
+    run.assumptions += [
+        "the raw built-in operator / std function on the same operands is the reference; whether it is defined is decided with 128-bit integers",
+        "int_pow may keep the rep R or use decltype(R*R) (the statement does not fix the type of a power); the count of results that keep a sub-int R is in ipow_rep_is_R_not_promoted",
+        "int / Quantity<Unos,int> is the 'equivalent units' case: its acceptance is not judged, its value and unit are",
+        "raw / unblock_int_div(raw) (no quantity involved) is not exercised",
+    ]
 
 
 def replay(path):
@@ -277,17 +606,17 @@ def replay(path):
     cfg = [c for c in core.CFG6 if str(c) == r.get("config")]
     cfg = cfg[0] if cfg else core.GXX14
     wd = os.path.join(core.BUILD, "C14", "replay")
-    pre = '#include "sweep.hh"\n' + PREAMBLE + '\nstatic std::string c11fmt(long double v) { char b[96]; std::snprintf(b, sizeof b, "%La", v); return b; }\n'
     if "code" in r:
-        res, _ = core.run_probes(cfg, [core.Probe(0, r["code"], r["expected"])], wd, "rp", pre, flags=cflags(cfg))
+        res, _ = core.run_probes(cfg, [core.Probe(0, r["code"], r["expected"])], wd, "rp", PROBE_PRE, flags=cflags(cfg))
         print("observed:", res[0][0], "expected:", r["expected"])
         if res[0][0] != r["expected"]:
             print("VIOLATION property=C14 replay=%s" % path)
             return 1
         return 0
-    res, failed = psx.run_dump(cfg, [(0, r["stmts"])], wd, "rp", pre, flags=cflags(cfg))
+    res, failed = psx.run_dump(cfg, [(0, r["stmts"])], wd, "rp", PRE, flags=cflags(cfg))
     print("observed now:", res.get(0), failed)
-    if failed or res.get(0) == r.get("observed"):
+    strip = lambda d: {k: v for k, v in (d or {}).items() if k != "id"}
+    if failed or strip(res.get(0)) == strip(r.get("observed")):
         print("VIOLATION property=C14 replay=%s" % path)
         return 1
     return 0
